@@ -6,4 +6,5 @@ n="$1"
 mkdir -p /tmp/w/$n
 git -C /verif worktree add -q -b w-$n /tmp/w/$n/verif HEAD
 git -C /repo worktree add -q -b w-$n /tmp/w/$n/repo HEAD
+cp /repo/Cargo.lock /tmp/w/$n/repo/Cargo.lock 2>/dev/null
 echo "export LMV_REPO=/tmp/w/$n/repo; cd /tmp/w/$n/verif"
